@@ -83,12 +83,17 @@ inductive PGOp (F : Type) where
   | setLowerBound (x : F)
   /-- `obj.grid = arr`: stores the nearest grid points; the lower bound is *not* touched -/
   | setGrid (arr : List F)
+  /-- continue with `obj.copy()` / `copy.deepcopy(obj)` / an unpickled `obj` / the member of a copied
+  `ParameterGridSet`: the same state in a new object (the model has value semantics — that the copy
+  shares no writable memory with anything is the `views` oracle's part) -/
+  | copy
 
 /-- one operation; `none` = it raises and the object is unchanged -/
 def PGObj.step (o : PGObj F) : PGOp F → Option (PGObj F)
   | .extra => (addExtra o.G o.grid).map fun r => ⟨r.1, r.2⟩
   | .setLowerBound x => some { o with G := { o.G with lb := aroundDec o.G.dec x } }
   | .setGrid arr => some { o with grid := buildGrid o.G arr }
+  | .copy => some o
 
 /-- a history of operations (a raising operation leaves the object as it was) -/
 def PGObj.run (o : PGObj F) : List (PGOp F) → PGObj F
